@@ -72,6 +72,7 @@ static Pools make_pools(uint64_t tps) {
     GenericAddressEventCount a2 = a0; a2.ae_code = 0; p.aec.push_back(a2);
     GenericAddressEventCount a3 = a1; a3.ae_transport_flags = (QueryResponseTransportFlagsMask)2; p.aec.push_back(a3);   // differs from a1 in the transport flags only
     GenericAddressEventCount a4 = a0; a4.ip_address = std::string(); p.aec.push_back(a4);   // a0 with an EMPTY address (a legal byte string): a key of its own, whatever sits at index 0 of the address table
+    GenericAddressEventCount a5 = a1; a5.ae_transport_flags = (QueryResponseTransportFlagsMask)0x21; p.aec.push_back(a5);   // a1 plus the trailing-data bit (1 << 5): differs from a1 in an upper flag bit only
     GenericMalformedMessage m0; m0.ts = T(1600000002, 5); m0.client_ip = ip4a; m0.client_port = 9; m0.server_ip = ip6; m0.server_port = 853; m0.mm_transport_flags = (QueryResponseTransportFlagsMask)5; m0.mm_payload = std::string("\xff\x00junk", 6); p.mm.push_back(m0);
     GenericMalformedMessage m1; m1.client_port = 7; p.mm.push_back(m1);
     GenericMalformedMessage m2; p.mm.push_back(m2);                                               // no field: not storable
